@@ -2,6 +2,7 @@ package main
 
 import (
 	"go/ast"
+	"go/printer"
 	"go/token"
 	"go/types"
 	"os"
@@ -141,6 +142,10 @@ func (in *inliner) normalise(o *types.Func) {
 	fd := in.decls[o]
 	if fd != nil && fd.Body != nil {
 		fd.Body = in.block(fd.Body, o)
+		if d := os.Getenv("VERIF_DUMPNORM"); d != "" && d == fd.Name.Name {
+			_ = printer.Fprint(os.Stderr, token.NewFileSet(), fd)
+			os.Stderr.WriteString("\n")
+		}
 	}
 	in.state[o] = 2
 }
@@ -390,7 +395,28 @@ func (in *inliner) block(b *ast.BlockStmt, within *types.Func) *ast.BlockStmt {
 func (in *inliner) stmts(list []ast.Stmt, within *types.Func) ([]ast.Stmt, bool) {
 	var out []ast.Stmt
 	changed := false
-	for _, s := range list {
+	for i := 0; i < len(list); i++ {
+		s := list[i]
+		// v, ok := h(…); if !ok { FAIL }   — a helper with early failure returns (see guarded)
+		if as, isAs := s.(*ast.AssignStmt); isAs && i+1 < len(list) {
+			if ifs, isIf := list[i+1].(*ast.IfStmt); isIf && ifs.Init == nil && ifs.Else == nil {
+				if repl, ok := in.guarded(as, ifs, within); ok {
+					out = append(out, repl...)
+					changed = true
+					i++
+					continue
+				}
+			}
+		}
+		if ifs, isIf := s.(*ast.IfStmt); isIf && ifs.Else == nil {
+			if as, isAs := ifs.Init.(*ast.AssignStmt); isAs {
+				if repl, ok := in.guarded(as, ifs, within); ok {
+					out = append(out, repl...)
+					changed = true
+					continue
+				}
+			}
+		}
 		repl, ch := in.stmt(s, within)
 		if ch {
 			changed = true
@@ -662,9 +688,11 @@ func (in *inliner) exprsIn(s ast.Stmt, within *types.Func) (ast.Stmt, bool) {
 // copier deep-copies a sub-tree, replacing identifiers that denote substituted objects and propagating the type information of
 // every copied node.
 type copier struct {
-	info   *types.Info
-	subst  map[types.Object]ast.Expr
-	onCall func(*ast.CallExpr) ast.Expr
+	info     *types.Info
+	subst    map[types.Object]ast.Expr
+	onCall   func(*ast.CallExpr) ast.Expr
+	onReturn func(*ast.ReturnStmt) ast.Stmt // replaces return statements (not inside function literals)
+	inLit    int
 }
 
 var astNodeType = reflect.TypeOf((*ast.Node)(nil)).Elem()
@@ -689,6 +717,13 @@ func (cp *copier) node(n ast.Node) ast.Node {
 		if e := cp.onCall(c); e != nil {
 			return e
 		}
+	}
+	if r, ok := n.(*ast.ReturnStmt); ok && cp.onReturn != nil && cp.inLit == 0 {
+		return cp.onReturn(r)
+	}
+	if _, ok := n.(*ast.FuncLit); ok {
+		cp.inLit++
+		defer func() { cp.inLit-- }()
 	}
 	if rv.Kind() != reflect.Ptr || rv.Elem().Kind() != reflect.Struct {
 		return n
@@ -757,6 +792,12 @@ func (cp *copier) node(n ast.Node) ast.Node {
 	}
 	out := nv.Interface().(ast.Node)
 	cp.copyInfo(n, out)
+	// *(&x) left behind by substituting &x for a pointer parameter is x
+	if st, ok := out.(*ast.StarExpr); ok {
+		if u, isU := unparen(st.X).(*ast.UnaryExpr); isU && u.Op == token.AND {
+			return u.X
+		}
+	}
 	return out
 }
 
@@ -793,4 +834,237 @@ func (cp *copier) copyInfo(old, nw ast.Node) {
 			cp.info.Implicits[nw] = im
 		}
 	}
+}
+
+// guarded expands a helper with early failure returns at a call site of the form
+//
+//	lhs…, ok := h(args)          or     if lhs…, ok = h(args); !ok { FAIL }
+//	if !ok { FAIL }
+//
+// (likewise `err != nil` with an error as last result) where FAIL ends in a return. Every return of h yields a literal false
+// (resp. a non-nil error) or a literal true (resp. nil) as its last result, and the last statement of h is its only success
+// return. The expansion is h's body with each failure return replaced by { lhs… = results; FAIL } and the final return by the
+// assignment of its results; the guard itself disappears (it cannot fire after the success return). This is exact: the
+// failure paths leave through copies of FAIL, everything after the call is reached only through h's success path.
+func (in *inliner) guarded(as *ast.AssignStmt, ifs *ast.IfStmt, within *types.Func) ([]ast.Stmt, bool) {
+	if len(as.Rhs) != 1 || len(as.Lhs) < 1 {
+		return nil, false
+	}
+	call := singleCall(as.Rhs[0])
+	if call == nil || call.Ellipsis.IsValid() {
+		return nil, false
+	}
+	f := callee(in.info, call)
+	if f == nil {
+		return nil, false
+	}
+	f = f.Origin()
+	fd := in.decls[f]
+	if !in.fresh[f] || f == within || fd == nil || fd.Body == nil || in.state[f] == 1 {
+		return nil, false
+	}
+	in.normalise(f)
+	sig := f.Type().(*types.Signature)
+	if sig.Variadic() || sig.Results().Len() != len(as.Lhs) || len(call.Args) != sig.Params().Len() {
+		return nil, false
+	}
+	if sig.Recv() != nil {
+		sel, ok := unparen(call.Fun).(*ast.SelectorExpr)
+		if !ok {
+			return nil, false
+		}
+		if s := in.info.Selections[sel]; s == nil || s.Kind() != types.MethodVal || len(s.Index()) != 1 {
+			return nil, false
+		}
+	}
+	// the guard tests the last left-hand side: !ok  or  err != nil
+	okVar := objOf(in.info, as.Lhs[len(as.Lhs)-1])
+	if okVar == nil {
+		return nil, false
+	}
+	lastT := sig.Results().At(sig.Results().Len() - 1).Type()
+	isBool := false
+	if b, isB := lastT.Underlying().(*types.Basic); isB && b.Info()&types.IsBoolean != 0 {
+		isBool = true
+	} else if !types.Identical(lastT, types.Universe.Lookup("error").Type()) {
+		return nil, false
+	}
+	if isBool {
+		u, isU := unparen(ifs.Cond).(*ast.UnaryExpr)
+		if !isU || u.Op != token.NOT || !sameVar(in.info, u.X, okVar) {
+			return nil, false
+		}
+	} else {
+		nn, isCmp := nilCmp(in.info, ifs.Cond, 1, func(e ast.Expr) bool { return sameVar(in.info, e, okVar) })
+		if !isCmp || !nn {
+			return nil, false
+		}
+	}
+	// FAIL ends in a return and has no break/continue of its own that would bind differently inside h's loops
+	fail := ifs.Body.List
+	if len(fail) == 0 {
+		return nil, false
+	}
+	if _, isRet := fail[len(fail)-1].(*ast.ReturnStmt); !isRet {
+		return nil, false
+	}
+	badFail := false
+	ast.Inspect(ifs.Body, func(n ast.Node) bool {
+		switch n.(type) {
+		case *ast.BranchStmt:
+			badFail = true
+		case *ast.FuncLit:
+			return false
+		}
+		return true
+	})
+	if badFail {
+		return nil, false
+	}
+	// h: like simpleBody but with several returns, classified by their last result
+	nret := 0
+	okBody := true
+	params := map[types.Object]bool{}
+	if r := sig.Recv(); r != nil {
+		params[r] = true
+	}
+	for i := 0; i < sig.Params().Len(); i++ {
+		params[sig.Params().At(i)] = true
+	}
+	success := func(r *ast.ReturnStmt) (isSuccess, known bool) {
+		if len(r.Results) != sig.Results().Len() {
+			return false, false
+		}
+		last := r.Results[len(r.Results)-1]
+		if isBool {
+			tv, has := in.info.Types[last]
+			if !has || tv.Value == nil {
+				return false, false
+			}
+			return tv.Value.String() == "true", true
+		}
+		if isNilIdent(in.info, last) {
+			return true, true
+		}
+		// a non-nil error: a package-level error value, a call constructing one, or a variable known non-nil is not decided
+		// here — only syntactic constructors and package-level values count
+		switch x := unparen(last).(type) {
+		case *ast.CallExpr:
+			return false, true
+		case *ast.Ident:
+			if v, isV := in.info.Uses[x].(*types.Var); isV && v.Parent() == v.Pkg().Scope() {
+				return false, true
+			}
+		case *ast.SelectorExpr:
+			if v, isV := in.info.Uses[x.Sel].(*types.Var); isV && v.Pkg() != nil && v.Parent() == v.Pkg().Scope() {
+				return false, true
+			}
+		}
+		return false, false
+	}
+	ast.Inspect(fd.Body, func(n ast.Node) bool {
+		switch x := n.(type) {
+		case *ast.DeferStmt, *ast.GoStmt, *ast.LabeledStmt:
+			okBody = false
+		case *ast.BranchStmt:
+			if x.Tok == token.GOTO || x.Label != nil {
+				okBody = false
+			}
+		case *ast.FuncLit:
+			return false
+		case *ast.ReturnStmt:
+			nret++
+			if _, known := success(x); !known {
+				okBody = false
+			}
+		case *ast.CallExpr:
+			if builtinName(in.info, x) == "recover" {
+				okBody = false
+			}
+			if c := callee(in.info, x); c != nil && c.Origin() == f {
+				okBody = false
+			}
+		}
+		return okBody
+	})
+	if !okBody || nret < 2 || len(fd.Body.List) == 0 {
+		return nil, false
+	}
+	for p := range params {
+		if assignedIn(in.info, fd.Body, p) {
+			return nil, false
+		}
+	}
+	lastRet, isRet := fd.Body.List[len(fd.Body.List)-1].(*ast.ReturnStmt)
+	if !isRet {
+		return nil, false
+	}
+	if s, _ := success(lastRet); !s {
+		return nil, false
+	}
+	// every other return is a failure
+	onlyFailures := true
+	ast.Inspect(fd.Body, func(n ast.Node) bool {
+		if _, isLit := n.(*ast.FuncLit); isLit {
+			return false
+		}
+		if r, isR := n.(*ast.ReturnStmt); isR && r != lastRet {
+			if s, _ := success(r); s {
+				onlyFailures = false
+			}
+		}
+		return true
+	})
+	if !onlyFailures {
+		return nil, false
+	}
+	// bind parameters
+	var pre []ast.Stmt
+	subst := map[types.Object]ast.Expr{}
+	bind := func(p *types.Var, arg ast.Expr) {
+		if p.Name() == "_" || p.Name() == "" {
+			return
+		}
+		if in.simpleArg(arg) {
+			subst[p] = arg
+			return
+		}
+		id := &ast.Ident{NamePos: call.Pos(), Name: p.Name()}
+		in.info.Defs[id] = p
+		pre = append(pre, &ast.AssignStmt{Lhs: []ast.Expr{id}, TokPos: call.Pos(), Tok: token.DEFINE, Rhs: []ast.Expr{arg}})
+	}
+	if r := sig.Recv(); r != nil {
+		bind(r, unparen(call.Fun).(*ast.SelectorExpr).X)
+	}
+	for i, a := range call.Args {
+		bind(sig.Params().At(i), a)
+	}
+	cp := &copier{info: in.info, subst: subst}
+	failCopier := &copier{info: in.info, subst: map[types.Object]ast.Expr{}}
+	cp.onReturn = func(r *ast.ReturnStmt) ast.Stmt {
+		var res []ast.Expr
+		for _, e := range r.Results {
+			res = append(res, cp.node(e).(ast.Expr))
+		}
+		var lhs []ast.Expr
+		for _, l := range as.Lhs {
+			lhs = append(lhs, failCopier.node(l).(ast.Expr))
+		}
+		asg := &ast.AssignStmt{Lhs: lhs, TokPos: r.Pos(), Tok: as.Tok, Rhs: res}
+		if r == lastRet {
+			return asg
+		}
+		blk := &ast.BlockStmt{Lbrace: r.Pos(), Rbrace: r.End()}
+		blk.List = append(blk.List, asg)
+		for _, fs := range fail {
+			blk.List = append(blk.List, failCopier.node(fs).(ast.Stmt))
+		}
+		return blk
+	}
+	out := pre
+	for _, s := range fd.Body.List {
+		out = append(out, cp.node(s).(ast.Stmt))
+	}
+	in.count++
+	return out, true
 }
